@@ -15,7 +15,9 @@
 // address taken outside sync/atomic and pflag calls and outside a composite
 // literal that stores it in a struct field (which then becomes an alias that
 // may only be dereferenced), an aggregate tracked field passed to a function
-// or copied into a variable, a tracked struct copied by value, an unkeyed
+// or copied into a variable or into a field (e.g. of a message sent to another
+// component; fmt / log calls format synchronously and are reads), a tracked
+// struct copied by value, an unkeyed
 // literal of a tracked struct, a tracked field that no longer has any site.
 //
 // usage: goaccess2v <dir of pkg/cmd>   (run with the module root as cwd)
@@ -44,7 +46,7 @@ var tracked = []string{
 	"actor.hasData", "observer.hasData", "collectedSignal.hasData", "auditor.hasData",
 	"sink.lastVal",
 	"collectorState.errors", "collectorState.badCounts", "collectorState.goodCounts",
-	"auditionState.curMood", "auditionState.curMoodStart",
+	"auditionState.curMood", "auditionState.curMoodStart", "auditionState.curVals",
 	"auditor.name", "config.dataDir", "actor.workDir",
 	"workerRegistry.mu.workers", "workerRegistry.mu.numWorkers",
 }
@@ -195,6 +197,21 @@ func (t *tr) pkgCall(call *ast.CallExpr) (string, string) {
 	return "", ""
 }
 
+// formatCall: a call of package fmt or of the log package (functions and
+// logger methods): the arguments are formatted before the call returns, in the
+// calling goroutine — a read of an aggregate, not an alias.
+func (t *tr) formatCall(call *ast.CallExpr) bool {
+	path, _ := t.pkgCall(call)
+	if path == "" {
+		if sel, ok := call.Fun.(*ast.SelectorExpr); ok {
+			if s, ok := t.info.Selections[sel]; ok && s.Kind() == types.MethodVal && s.Obj().Pkg() != nil {
+				path = s.Obj().Pkg().Path()
+			}
+		}
+	}
+	return path == "fmt" || strings.HasSuffix(path, "/pkg/crdb/log")
+}
+
 // classify one occurrence of a tracked cell: expr is the selector (or the
 // dereference of an alias field); stack is the chain of ancestors.
 func (t *tr) classify(cell string, expr ast.Expr, stack []ast.Node, fn string) {
@@ -294,7 +311,7 @@ climb:
 				}
 				return
 			}
-			if t.isConversion(p) || isValue(ety) {
+			if t.isConversion(p) || isValue(ety) || t.formatCall(p) {
 				t.add(cell, "R", "Plain", fn, expr.Pos())
 				return
 			}
@@ -317,7 +334,8 @@ climb:
 			return
 		}
 	}
-	if isValue(ety) {
+	if isValue(ety) || indexed {
+		// the value, or one element, is read
 		t.add(cell, "R", "Plain", fn, expr.Pos())
 		return
 	}
